@@ -532,3 +532,59 @@ pub fn c03_sweep_unit(unit: u64, ctx: &mut Ctx, ctl: &mut UnitCtl) {
         }
     }
 }
+
+/// Foreign files around the readers' internal limits: many records, many parts, many points.
+pub fn large_unit(unit: u64, ctx: &mut Ctx, ctl: &mut UnitCtl) {
+    let mut r = Rng::new(0xF0 + unit);
+    let mut scns: Vec<ForScn> = Vec::new();
+    let mk = |ty: i32, recs: Vec<ForRec>, order: Vec<usize>, filler: Vec<Vec<u8>>| ForScn { ty, hdr_bbox: [0; 8], recs, order, filler, trailing: vec![], rstack: StackCfg::Direct, rplan: Plan::default() };
+    match unit % 3 {
+        0 => {
+            // many records (points and null records), in index order and reversed
+            for n in [1025usize, 4097, 5000] {
+                let recs: Vec<ForRec> = (0..n)
+                    .map(|i| {
+                        let g = if i % 97 == 13 { Geom::null() } else { Geom { ty: 11, parts: vec![Part { kind: -1, pts: vec![[(i as f64).to_bits(), 2f64.to_bits(), 3f64.to_bits(), 4f64.to_bits()]] }], bbox: None } };
+                        let m = g.ty != 0 && i % 2 == 0;
+                        ForRec { number: i as i32 + 1, geom: g, m_present: m }
+                    })
+                    .collect();
+                scns.push(mk(11, recs.clone(), vec![], vec![]));
+                if n == 4097 {
+                    scns.push(mk(11, recs, (0..n).rev().collect(), vec![]));
+                }
+            }
+        }
+        1 => {
+            // many parts, with empty and one-vertex parts among them
+            for (ty, nparts) in [(3, 1025usize), (15, 1500), (31, 2049), (23, 1024)] {
+                let mut parts = Vec::new();
+                for k in 0..nparts {
+                    let npts = [2usize, 0, 1, 3][k % 4];
+                    parts.push(Part { kind: if ty == 31 { (k % 6) as i32 } else { -1 }, pts: (0..npts).map(|j| [((k + j) as f64).to_bits(), (j as f64).to_bits(), if has_z(ty) { 1f64.to_bits() } else { 0 }, if has_m(ty) { 2f64.to_bits() } else { 0 }]).collect() });
+                }
+                let g = Geom { ty, parts, bbox: Some([0; 8]) };
+                let small = gen_foreign_geom(&mut r, ty, F_SMALLINT, F_SMALLINT);
+                scns.push(mk(ty, vec![ForRec { number: 1, geom: g, m_present: has_m(ty) && nparts % 2 == 1 }, ForRec { number: 2, geom: small, m_present: has_m(ty) }], vec![], vec![]));
+            }
+        }
+        _ => {
+            // many points in one part
+            for (ty, npts) in [(8, 1025usize), (18, 3000), (5, 1024), (13, 2000), (28, 1500), (31, 1100)] {
+                let pts: Vec<V> = (0..npts).map(|j| [(j as f64).to_bits(), ((j * 7 % 13) as f64).to_bits(), if has_z(ty) { 1f64.to_bits() } else { 0 }, if has_m(ty) { (j as f64 + 0.5).to_bits() } else { 0 }]).collect();
+                let g = Geom { ty, parts: vec![Part { kind: if ty == 31 { 2 } else { -1 }, pts }], bbox: Some([0; 8]) };
+                let small = gen_foreign_geom(&mut r, ty, F_SMALLINT, F_SMALLINT);
+                scns.push(mk(ty, vec![ForRec { number: 1, geom: small, m_present: has_m(ty) }, ForRec { number: 2, geom: g, m_present: has_m(ty) && npts % 2 == 0 }], vec![1, 0], vec![vec![], vec![0xAA; 6], vec![]]));
+            }
+        }
+    }
+    for scn in scns {
+        if !ctl.before_case(|| Scenario::Foreign(scn.clone())) {
+            continue;
+        }
+        ctx.stats.evaluations += 1;
+        ctx.stats.reach("large-scenario");
+        execute(&scn, ctx);
+        ctl.after_case(ctx, || Scenario::Foreign(scn.clone()));
+    }
+}
